@@ -319,6 +319,8 @@ where
 
                         let content_start_loc = self.cursor;
                         let comment = self.read_line_comment();
+                        // Don't treat the '\r' of a "\r\n" line ending as part of the comment.
+                        let comment = comment.strip_suffix('\r').unwrap_or(comment);
                         match is_doc_comment {
                             true => Some(Ok((content_start_loc, TokenKind::DocComment(comment), self.cursor))),
                             false => None, // Non-doc comments are ignored.
